@@ -27,7 +27,7 @@ import string
 CMD = ['foo', 'bar', 'emph', 'textit', 'ref', 'cite', 'title', 'x', 'Question',
        'hspace*', 'color', 'frac', 'sqrt', 'caption', 'alpha', 'LaTeX']
 ENV = ['document', 'center', 'theorem', 'tabular', 'figure', 'a', 'proof',
-       'abstract', 'table*']
+       'abstract', 'table*', 'text']
 LST = ['itemize', 'enumerate', 'description']
 MENV = ['align', 'align*', 'alignat', 'array', 'displaymath', 'eqnarray',
         'eqnarray*', 'equation', 'equation*', 'flalign', 'flalign*', 'gather',
@@ -47,7 +47,9 @@ TRICKY = ['endnote', 'itemsep', 'begingroup', 'endgroup', 'itemindent', 'labelse
           'sectionmark', 'textbff', 'defn', 'inx', 'capx', 'leftarrow',
           'rightarrow', 'bigskip', 'newcommandx', 'ends', 'items', 'begins',
           'section*', 'textbf*', 'label*', 'cup*', 'noindent*', 'item*', 'begin*',
-          'end*', 'newcommand*', 'def*']
+          'end*', 'newcommand*', 'def*',
+          # names the data model uses internally for text / groups / regions
+          'text', 'text', 'BraceGroup', 'BracketGroup', 'displaymath', 'math', 'tex']
 
 PLAIN = list('abcxyzABC0123456789') + ['hello', 'world', 'foo bar', 'lorem ipsum']
 PUNCT = list(',;:!?-+=<>"\'`@/|.&#^_~()') + ['é', '😂', 'ß', 'Ω']
@@ -121,7 +123,7 @@ class DocGen:
     def comment(self):
         r = self.r
         alpha = ['a', ' ', '{', '}', '$', '\\begin{x}', '\\end{y}', '[', ']',
-                 '%', '\\', '\\item', 'note', '$$', '\\[']
+                 '%', '\\', '\\item', 'note', '$$', '\\[', '\\\\', '\\}', '\\{', '\\%', '\t']
         return ('K', '%' + ''.join(r.choice(alpha) for _ in range(r.randint(0, 5))))
 
     # ---- sequences --------------------------------------------------------
@@ -251,6 +253,9 @@ class DocGen:
             a.append(('o', self.seq(d + 2, dict(inner, opt=True))))
         for _ in range(r.choice([0, 1, 1, 2, 3] if not env else [0, 0, 1, 2])):
             a.append(('r', self.seq(d + 2, inner)))
+            # two textually equal arguments in a row (`\frac{\x}{\x}`)
+            if self.cfg.twins and a[-1][1] and r.random() < self.cfg.twins:
+                a.append(a[-1])
         return a
 
     def cross_twins(self, nodes):
